@@ -1,6 +1,9 @@
-(* C14 - importing transfers exactly the requested objects, byte-identical.  Statements only (partial). *)
-From Coq Require Import List ZArith NArith Sorting.Sorted.
-From DOS Require Import Generated Base Store StoreProofs StoreLemmas Merge MergeProofs MergeSpec.
+(* C14 - importing transfers exactly the requested objects, byte-identical.  Statements only.
+   Modelled: the choice of the keys to transfer (same-hash path: sorted merge), the grouping into calls under the memory budget
+   (ImportPlan.plan), the transfer itself as a program (Programs.p_import: any batches over any packs, one COMMIT).
+   Not modelled: reading the objects from the source container (its own lookup), the progress callback, the old->new mapping dict. *)
+From Coq Require Import List ZArith NArith Sorting.Sorted Permutation.
+From DOS Require Import Generated Base Store StoreProofs StoreLemmas Merge MergeProofs MergeSpec Programs PackProofs AddPackProofs ImportPlan ImportProofs.
 Import ListNotations.
 Open Scope Z_scope.
 
@@ -16,6 +19,18 @@ Proof.
     + unfold yl, yr in E. inversion E.
   - intros [Hx Hn]. right; left. exists x. auto.
 Qed.
+
+(* the bounded cache: every object the source yields is handed to the destination exactly once, whatever the budget and the sizes;
+   a bulk flush never exceeds the budget and is never empty; an object goes alone exactly when it is larger than the budget *)
+Theorem C14_every_yielded_object_handed_over_once : forall (A : Type) (size : A -> nat) budget objs,
+  Permutation (concat (map objs_of (plan size budget [] 0%nat objs))) objs.
+Proof. intros A size budget objs. exact (plan_complete size budget objs [] 0%nat). Qed.
+Theorem C14_memory_budget_honoured : forall (A : Type) (size : A -> nat) budget objs,
+  Forall (fun b => match b with
+                   | Direct o => (budget < size o)%nat
+                   | Bulk os => os <> [] /\ (total size os <= budget)%nat
+                   end) (plan size budget [] 0%nat objs).
+Proof. intros A size budget objs. apply (plan_bounds size budget objs [] 0%nat); [reflexivity|apply Nat.le_0_l]. Qed.
 
 Section C14.
 Variable H : bytes -> key.
@@ -34,9 +49,42 @@ Proof. intros ig rs d r. exact (insert_rows_adds ig rs d r). Qed.
 (* what the destination reads back for a key has that key as digest under the destination's hash *)
 Theorem C14_destination_reads_are_content_addressed : forall w k c, Inv H inflate w -> stored inflate w k = Some c -> H c = k.
 Proof. exact (stored_sound H inflate). Qed.
+Hypothesis H_inj : forall a b, H a = H b -> a = b.
+
+(* the transfer, completed: for ALL batch lists (any grouping, any packs, repeated or already-present content), modes and fsync
+   settings, every object of every batch reads back from the destination as exactly its content under the key of that content;
+   everything the destination held before still reads back unchanged; the invariant (one entry per key, valid rows) holds *)
+Theorem C14_transfer_complete_and_byte_identical : forall w l bs nh twice fs,
+  Inv H inflate w -> pending l = [] -> Forall (fun b => Forall (aobj_ok H inflate) (snd b)) bs ->
+  exists w' l', run_events (w, l) (p_import w nh twice fs bs) = (w', l') /\ Inv H inflate w' /\
+    (forall k c, stored inflate w k = Some c -> stored inflate w' k = Some c) /\
+    forall b o, In b bs -> In o (snd b) ->
+      exists c, decode inflate (oblob o) (ocomp o) = Some c /\ H c = okey o /\ stored inflate w' (okey o) = Some c.
+Proof. exact (import_transfers_all H inflate H_inj). Qed.
+
+(* ... and the destination's index is its old index plus the collected rows under INSERT OR IGNORE (present keys gain nothing),
+   its loose objects are untouched and its packs only grew *)
+Theorem C14_destination_otherwise_untouched : forall w l bs nh twice fs,
+  Inv H inflate w -> pending l = [] -> Forall (fun b => Forall (aobj_ok H inflate) (snd b)) bs ->
+  exists w' l', run_events (w, l) (p_import w nh twice fs bs) = (w', l') /\
+    db w' = insert_rows true (db w) (rows_of_batches w nh twice (map rkey (db w)) [] bs) /\
+    loose w' = loose w /\ (forall id, grows (get_pack w id) (get_pack w' id)) /\ Good H inflate w fs w'.
+Proof. exact (import_final H inflate H_inj). Qed.
+
+(* interrupted anywhere, the destination is consistent and has lost nothing *)
+Theorem C14_interrupted_transfer_is_harmless : forall w l bs nh twice fs m,
+  Inv H inflate w -> pending l = [] -> Forall (fun b => Forall (aobj_ok H inflate) (snd b)) bs ->
+  let w' := crash (run_events (w, l) (firstn m (p_import w nh twice fs bs))) in
+  Inv H inflate w' /\ (forall k c, stored inflate w k = Some c -> stored inflate w' k = Some c).
+Proof. intros w l bs nh twice fs m HI Hp Ho. destruct (import_crash_safe H inflate H_inj w l bs nh twice fs m HI Hp Ho) as (A & B & _). split; assumption. Qed.
 End C14.
 Print Assumptions C14_keys_to_transfer.
 Print Assumptions C14_no_second_entry.
 Print Assumptions C14_destination_entries_untouched.
 Print Assumptions C14_transferred_keys_indexed.
 Print Assumptions C14_destination_reads_are_content_addressed.
+Print Assumptions C14_every_yielded_object_handed_over_once.
+Print Assumptions C14_memory_budget_honoured.
+Print Assumptions C14_transfer_complete_and_byte_identical.
+Print Assumptions C14_destination_otherwise_untouched.
+Print Assumptions C14_interrupted_transfer_is_harmless.
